@@ -84,6 +84,8 @@ class ModelMixin(ModelMixin2, ModelMixin3):
             return v.qual.split(':')[-1]
         if isinstance(v, IterV):
             return f'{v.kind}({self.describe(v.src, st, depth + 1)})'
+        if isinstance(v, ExtV):
+            return f'<{v.name}>'
         return type(v).__name__
 
     def idx_descr(self, e: IdxE, st, depth=0):
@@ -144,6 +146,8 @@ class ModelMixin(ModelMixin2, ModelMixin3):
                 return 'parsed-document'
             if k == 'elem-of':
                 return f'element-of({o[1]})'
+            if k == 'arg' and len(o) == 2:
+                return f'arg.{o[1]}'
             if len(o) == 2 and isinstance(o[1], tuple) and isinstance(k, str) and hasattr(str, k):
                 return f'{d(o[1])}.{k}()'          # result of a str method on a described value
             return str(k)
@@ -219,16 +223,17 @@ class ModelMixin(ModelMixin2, ModelMixin3):
             if v.name.startswith('sentinel:') or v.name.startswith('singleton:'):
                 return [(True, st)]
         if isinstance(v, StrV):
-            # emptiness of a string value is remembered per value description (pure re-evaluations agree)
+            # emptiness of a string value is remembered per value description (pure re-evaluations agree) until the
+            # function that tested it returns
             k = self.vkey(v, st)
-            if ('nonempty', k) in st.facts:
-                return [(True, st)]
-            if ('emptystr', k) in st.facts:
-                return [(False, st)]
+            known = self.str_fact(st, k)
+            if known is not None:
+                return [(known, st)]
             self.stats['forks'] += 1
             s2 = st.copy()
-            st.facts.add(('nonempty', k))
-            s2.facts.add(('emptystr', k))
+            d = len(st.frames)
+            st.facts.add(('nonempty', k, d))
+            s2.facts.add(('emptystr', k, d))
             self.hook('truth-fork', st, node, val=v, taken=True)
             self.hook('truth-fork', s2, node, val=v, taken=False)
             return [(True, st), (False, s2)]
@@ -238,6 +243,15 @@ class ModelMixin(ModelMixin2, ModelMixin3):
         self.hook('truth-fork', st, node, val=v, taken=True)
         self.hook('truth-fork', s2, node, val=v, taken=False)
         return [(True, st), (False, s2)]
+
+    def str_fact(self, st, k):
+        for f in st.facts:
+            if len(f) == 3 and f[1] == k:
+                if f[0] == 'nonempty':
+                    return True
+                if f[0] == 'emptystr':
+                    return False
+        return None
 
     def propagate_len(self, lsym, st):
         """A 1:1 map over a source list has the same length: keep them in step."""
@@ -453,7 +467,7 @@ class ModelMixin(ModelMixin2, ModelMixin3):
         return [(True, st), (False, s2)]
 
     def _is_concrete(self, v):
-        if isinstance(v, Const):
+        if isinstance(v, (Const, ClsV)):
             return True
         if isinstance(v, TupleV):
             return all(self._is_concrete(x) for x in v.items)
